@@ -8,7 +8,7 @@ CHECKS = {
     "C13": dict(
         level="exploration",
         technique="model-based property testing: bounded-exhaustive op enumeration + Hypothesis op sequences + atheris fuzzing against a reference list/key-function model",
-        text="Every single operation from every KeyedList of <= 4 items (5 item universes, typed and untyped), every 2-op sequence from small containers, Hypothesis-drawn op sequences up to 25 ops and (thorough) atheris byte-level campaigns, each compared after every step with a plain list + key function model; a raise must leave the full public observation unchanged. Bounded/sampled search, not a proof.",
+        text="Every single operation from every KeyedList of <= 4 items (6 item universes incl. equal items under different keys, typed and untyped), every 2-op sequence from small containers, Hypothesis-drawn op sequences up to 25 ops and (thorough) atheris byte-level campaigns, each compared after every step with a plain list + key function model; a raise must leave the full public observation unchanged. Bounded/sampled search, not a proof.",
         note="Trusts the reference model in vf/props/c13.py (plain list + key function) and the completeness of the public observation (list, len, reversed, keys, items, per-key get/[]/index_for_key/in, membership, count).",
         ref="DESIGN.md section 4, C13",
     ),
@@ -22,14 +22,14 @@ CHECKS = {
     "C15": dict(
         level="exploration",
         technique="differential property testing: generated (annotation, value) pairs vs an independent descriptor-level reference checker; exhaustive at depth <= 1/2, Hypothesis to depth 3, atheris byte-level campaigns",
-        text="check_type is compared with a reference checker that never looks at typing objects (it works on the descriptor the annotation was built from) on every annotation of depth <= 1 (thorough: depth <= 2 over a reduced base) x derived conforming / one-position-broken values + a general pool, and on Hypothesis/atheris generated annotations to depth 3; any exception from check_type is a violation. Sampled beyond the enumerated depth.",
+        text="check_type is compared with a reference checker that never looks at typing objects (it works on the descriptor the annotation was built from) on every annotation of depth <= 1 (thorough: depth <= 2 over a reduced base) x derived conforming / one-position-broken values + a general pool, and on Hypothesis/atheris generated annotations to depth 3; any exception from check_type is a violation. Every (annotation, value) pair is also tried on a host spec class declaring x: <annotation>: a conforming value must be accepted by assignment and by the constructor. Sampled beyond the enumerated depth.",
         note="Trusts the reference checker vf/props/c15.py:conforms (written from the property statement) and the descriptor->annotation builder.",
         ref="DESIGN.md section 4, C15",
     ),
     "C12": dict(
         level="exploration",
         technique="model-based testing: exhaustive op-sequence enumeration to a length bound + Hypothesis op sequences against an explicit protocol state machine",
-        text="All 64 spec_property configurations (16 option combinations x plain / spec unmanaged / spec managed / managed+preparer hosts) and all 32 classproperty configurations over a three-class chain are driven through every operation sequence up to the length bound (quick 5/4, thorough 6/5) and Hypothesis sequences of up to 40 ops, in lock-step with an explicit override/cache/getter state machine. Exhaustive to the bound, sampled beyond.",
+        text="All 64 spec_property configurations (16 option combinations x plain / spec unmanaged / spec managed / managed+preparer / inherited hosts, built through the constructor or the .setter/.deleter/.getter decorator chain, with and without invalidated_by='*') and all 32 classproperty configurations over a three-class chain are driven through every operation sequence up to the length bound (quick 5/4, thorough 6/5) and Hypothesis sequences of up to 40 ops, in lock-step with an explicit override/cache/getter state machine. Exhaustive to the bound, sampled beyond.",
         note="Trusts the protocol model in vf/props/c12.py; custom setter/deleter are modelled as writes to the underlying state.",
         ref="DESIGN.md section 4, C12",
     ),
@@ -120,28 +120,28 @@ CHECKS = {
     "C16": dict(
         level="exploration",
         technique="enumeration + property-based testing over class definitions: identity comparison of vars(cls) before/after decoration and first use of every helper; helper-name set vs an independent naming function",
-        text="Class definitions are enumerated (12 attribute sets incl. colliding singular/plural pairs x selection through annotations / attrs / attrs_typed / attrs_skip x lazy/eager x private attribute x init/repr/eq switches x user-defined __init__/__repr__/__eq__/__new__ x every expected helper name occupied as function / staticmethod / property / plain value) and combined at random by Hypothesis; after decoration, bootstrap and first use of every helper, everything the class body defined must be the identical object, the __spec_class_* backups must exist and work, exactly the documented helper names must have been added (independent naming function with hand-verified singular forms), private/skipped attributes get none, and colliding names either raise RuntimeError or resolve to distinct helpers that edit only their own attribute.",
+        text="Class definitions are enumerated (12 attribute sets incl. colliding singular/plural pairs x selection through annotations / attrs / attrs_typed / attrs_skip x lazy/eager x private attribute x init/repr/eq switches x user-defined __init__/__repr__/__eq__/__new__ x every expected helper name occupied as function / staticmethod / property / plain value) and combined at random by Hypothesis; after decoration, bootstrap and first use of every helper, everything the class body defined must be the identical object, the __spec_class_* backups must exist and work, exactly the documented helper names must have been added (independent naming function with hand-verified singular forms), private/skipped attributes get none, and colliding names either raise RuntimeError (again on every later use of a lazily decorated class) or resolve to distinct helpers that edit only their own attribute; with any helper name occupied (also on classes with an init_overflow_attr) the generated constructor still builds the documented state.",
         note="Singular forms come from a hand-verified table for the naming pool (not from inflect); staticmethod wrapping of a restored user __new__ is treated as the same object.",
         ref="DESIGN.md section 4, C16",
     ),
     "C17": dict(
         level="exploration",
         technique="signature-vs-behaviour property testing: Hypothesis-generated class worlds; per generated method, enumerated single parameters, keyword pairs, defaults and unadvertised names checked against inspect.signature with behavioural differentials",
-        text="For every generated method (constructor, top-level, scalar and element helpers) of Hypothesis-generated class worlds (incl. nested classes with an init=False attribute and with an overflow attribute) the advertised signature is compared with behaviour: positional parameters also work by keyword, every advertised keyword binds and reaches the behaviour (_inplace returns the receiver, _if=False leaves it untouched, _index/_insert position elements, nested keywords land on the nested object, **overflow keywords land in the overflow attribute - twice with different names), omitted non-virtual parameters equal their advertised default, keyword pairs bind, unadvertised names raise TypeError leaving the receiver unchanged (also with _inplace=True), and the nested keywords equal the init-enabled attributes of the nested class computed from the descriptor.",
+        text="For every generated method (constructor, top-level, scalar and element helpers) of Hypothesis-generated class worlds (incl. nested classes with an init=False attribute and with an overflow attribute) the advertised signature is compared with behaviour: positional parameters also work by keyword, every advertised keyword binds and reaches the behaviour (_inplace returns the receiver, _if=False leaves it untouched, _index/_insert position elements, nested keywords land on the nested object, **overflow keywords land in the overflow attribute - twice with different names), omitted non-virtual parameters equal their advertised default, keyword pairs bind, unadvertised names raise TypeError leaving the receiver unchanged (also with _inplace=True), and the nested keywords equal the init-enabled attributes of the nested class computed from the descriptor; omitting a constructor keyword builds what passing its advertised default builds (re-declared / re-defaulted attributes, init=False ancestors), and a value that merely compares equal to the one held is stored as given.",
         note="Valid base calls are constructed from the descriptor; binding errors are recognised by message origin; defaults of virtual parameters are documentation only.",
         ref="DESIGN.md section 4, C17",
     ),
     "C20": dict(
         level="fault_enumeration",
         technique="property-based testing with fault and schedule enumeration: Hypothesis-generated copy histories with sys.settrace line-fault injection, and a deterministic cooperative thread scheduler enumerating preemption schedules; oracle = copyreg.dispatch_table vs pristine snapshot",
-        text="copyreg.dispatch_table is compared with a pristine snapshot (optionally containing a user-registered module reducer) after every operation of Hypothesis-generated copy histories (constructors with mutable defaults, helpers, deep copies nested to depth 3, resets, failing calls), after aborting each operation at executed library lines (sampled in quick, every line in thorough), and after concurrent scenarios of 2-3 threads deep-copying module-bearing values under a harness-owned scheduler: every single-preemption schedule over utils/mutation.py + methods/core.py, two-preemption schedules over the copy-protection lines (a fifth in quick, all in thorough, plus both files in thorough) and Hypothesis-drawn schedules; every thread's copy must succeed and equal its source.",
+        text="copyreg.dispatch_table is compared with a pristine snapshot (optionally containing a user-registered module reducer) after every operation of Hypothesis-generated copy histories (constructors with mutable defaults, helpers, deep copies nested to depth 3, resets, failing calls), after aborting each operation at executed library lines (sampled in quick, every line in thorough), and after concurrent scenarios of 2-3 threads deep-copying module-bearing values under a harness-owned scheduler: every single-preemption schedule over utils/mutation.py + methods/core.py, two-preemption schedules over the copy-protection lines (a fifth in quick, all in thorough, plus both files in thorough) and Hypothesis-drawn schedules; every thread's copy must succeed and equal its source. Global state means the dispatch table, the warnings filter list (object and content) and sys.modules for privately loaded modules; two threads making the first use of two different lazy classes are scheduled through every one- and two-preemption schedule at the lines of build_attr_spec.",
         note="Interleavings at line granularity under a serialising scheduler with cooperative locks (module-global RLock rebinding); aborts inside the copy-protection bookkeeping itself are recorded open known findings.",
         ref="DESIGN.md section 4, C20",
     ),
     "C19": dict(
         level="exploration",
         technique="differential property testing with schedule enumeration: lazy vs eager builds of Hypothesis-generated class worlds; deterministic cooperative thread scheduler enumerating preemption schedules at library source lines",
-        text="Every Hypothesis-generated class world (Attr/field declarations, lazy parent and child, plain and spec subclasses, user-defined or inherited __new__) is built lazily and driven through every kind of first trigger (instantiate, __spec_class__, dataclasses.fields, through a subclass or the parent), sequentially and from 2-3 threads under a harness-owned scheduler (yield points at every line of spec_class.py, methods/base.py and types/attr.py; cooperative locks): every single-preemption schedule on three fixed shapes, two-preemption schedules over spec_class.py in thorough, and Hypothesis-drawn (world, triggers, schedule) cases; the canonical description (metadata, helper names, signatures, class-level defaults, every constructed instance) must equal the eager single-threaded build, with no exception and no deadlock.",
+        text="Every Hypothesis-generated class world (Attr/field declarations, lazy parent and child, plain and spec subclasses, user-defined or inherited __new__) is built lazily and driven through every kind of first trigger (instantiate, __spec_class__, dataclasses.fields, through a subclass or the parent), sequentially and from 2-3 threads under a harness-owned scheduler (yield points at every line of spec_class.py, methods/base.py and types/attr.py; cooperative locks): every single-preemption schedule on three fixed shapes, two-preemption schedules over spec_class.py in thorough, and Hypothesis-drawn (world, triggers, schedule) cases; the canonical description (metadata, helper names, signatures, class-level defaults, every constructed instance) must equal the eager single-threaded build, with no exception and no deadlock. Also: every order of first uses of a class over two lazily bootstrapped bases (incl. a common lazy root and a decorated class below the undecorated one), and two different lazy classes first used by two threads under every single preemption at the lines of the naming / Attr modules.",
         note="Line-granular interleavings under a serialising scheduler (module-global RLock rebinding, watchdog turns stalls into harness errors); beyond two preemptions the schedule space is sampled.",
         ref="DESIGN.md section 4, C19",
     ),
